@@ -18,7 +18,25 @@ pub fn root() -> &'static Path {
     })
 }
 
+static FAST: OnceLock<PathBuf> = OnceLock::new();
+/// A memory-backed scratch root (tmpfs under /dev/shm) for in-process sweeps that rewrite a
+/// small file hundreds of thousands of times; the ordinary root where there is no /dev/shm.
+pub fn fast_root() -> &'static Path {
+    FAST.get_or_init(|| {
+        let p = PathBuf::from("/dev/shm").join(format!("mrverif-{}", std::process::id()));
+        let _ = std::fs::remove_dir_all(&p);
+        if std::env::var("MRV_SCRATCH").is_err() && std::fs::create_dir_all(&p).is_ok() {
+            p
+        } else {
+            root().to_path_buf()
+        }
+    })
+}
+
 pub fn cleanup() {
+    if let Some(p) = FAST.get() {
+        let _ = std::fs::remove_dir_all(p);
+    }
     if let Some(p) = ROOT.get() {
         let _ = std::fs::remove_dir_all(p);
     }
